@@ -127,7 +127,10 @@ func (vc *VC) funcValue(f *ssa.Function) Term {
 // recvElemTypes lists the element types of the channels received from inside loop li.
 func (fr *Frame) recvElemTypes(li *loopInfo) []types.Type {
 	var out []types.Type
-	for b := range li.blocks {
+	for _, b := range fr.fn.Blocks {
+		if !li.blocks[b] {
+			continue
+		}
 		for _, in := range b.Instrs {
 			switch x := in.(type) {
 			case *ssa.Select:
@@ -1456,7 +1459,10 @@ func (fr *Frame) loopInvariantLoad(ld *ssa.UnOp, li *loopInfo) (Term, bool) {
 	if err != nil {
 		return Term{}, false
 	}
-	for b := range li.blocks {
+	for _, b := range fr.fn.Blocks {
+		if !li.blocks[b] {
+			continue
+		}
 		for _, in := range b.Instrs {
 			if s, ok := in.(*ssa.Store); ok {
 				leaf := map[Sort]bool{}
@@ -1486,7 +1492,7 @@ func (fr *Frame) loopEffects(li *loopInfo) *effects {
 		leaf := map[Sort]bool{}
 		vc.leafSorts(t, leaf)
 		root, ok := fr.rootOf(addr, li)
-		for s := range leaf {
+		for _, s := range sortedKeys(leaf) {
 			if ok && !root.Valid() {
 				ef.fresh[s] = true
 				if _, has := ef.sorts[s]; !has {
@@ -1502,7 +1508,10 @@ func (fr *Frame) loopEffects(li *loopInfo) *effects {
 			}
 		}
 	}
-	for b := range li.blocks {
+	for _, b := range fr.fn.Blocks {
+		if !li.blocks[b] {
+			continue
+		}
 		for _, in := range b.Instrs {
 			switch x := in.(type) {
 			case *ssa.Store:
@@ -1515,7 +1524,7 @@ func (fr *Frame) loopEffects(li *loopInfo) *effects {
 					// zero-initialisation writes into a fresh object
 					leaf := map[Sort]bool{}
 					vc.leafSorts(U(a.Type()).(*types.Pointer).Elem(), leaf)
-					for s := range leaf {
+					for _, s := range sortedKeys(leaf) {
 						ef.fresh[s] = true
 						if _, has := ef.sorts[s]; !has {
 							ef.sorts[s] = nil
@@ -1525,7 +1534,7 @@ func (fr *Frame) loopEffects(li *loopInfo) *effects {
 				if ms, ok := x.(*ssa.MakeSlice); ok {
 					leaf := map[Sort]bool{}
 					vc.leafSorts(U(ms.Type()).(*types.Slice).Elem(), leaf)
-					for s := range leaf {
+					for _, s := range sortedKeys(leaf) {
 						ef.fresh[s] = true
 						if _, has := ef.sorts[s]; !has {
 							ef.sorts[s] = nil
@@ -1536,7 +1545,7 @@ func (fr *Frame) loopEffects(li *loopInfo) *effects {
 					if srt, err := vc.tt.SortOf(mi.X.Type()); err == nil && srt != SRef {
 						leaf := map[Sort]bool{}
 						vc.leafSorts(mi.X.Type(), leaf)
-						for s := range leaf {
+						for _, s := range sortedKeys(leaf) {
 							ef.fresh[s] = true
 							if _, has := ef.sorts[s]; !has {
 								ef.sorts[s] = nil
@@ -1590,7 +1599,7 @@ func (fr *Frame) enterLoop(li *loopInfo, pre *State, phis []*ssa.Phi, phiEntry m
 		// the body may write anywhere, but the function's modifies clause bounds what may change
 		// in pre-existing objects: cells outside it keep their value (re-proved at every back edge)
 		var sl []string
-		for s := range vc.heapReg {
+		for _, s := range sortedKeys(vc.heapReg) {
 			sl = append(sl, string(s))
 		}
 		sort.Strings(sl)
@@ -1616,7 +1625,7 @@ func (fr *Frame) enterLoop(li *loopInfo, pre *State, phis []*ssa.Phi, phiEntry m
 		vc.havocAll(hs)
 	} else {
 		var sl []string
-		for s := range ef.sorts {
+		for _, s := range sortedKeys(ef.sorts) {
 			sl = append(sl, string(s))
 		}
 		sort.Strings(sl)
@@ -1674,7 +1683,7 @@ func (fr *Frame) enterLoop(li *loopInfo, pre *State, phis []*ssa.Phi, phiEntry m
 			hs.mbase = vc.freshName("ep")
 			hs.lazyParents, hs.lazySels = nil, nil
 		} else {
-			for kv := range ef.mapKV {
+			for _, kv := range sortedKV(ef.mapKV) {
 				vc.havocMapsOfSorts(hs, kv[0], kv[1])
 			}
 			for _, me := range ef.mapRoots {
@@ -1699,7 +1708,8 @@ func (fr *Frame) enterLoop(li *loopInfo, pre *State, phis []*ssa.Phi, phiEntry m
 			hs.ghost[vc.recvKey(elem)] = vc.Fresh("chrecv", SArray(SInt, SInt))
 		}
 	}
-	for k, g := range hs.ghost {
+	for _, k := range sortedKeys(hs.ghost) {
+		g := hs.ghost[k]
 		if strings.HasPrefix(k, "chrecv!") {
 			continue
 		}
@@ -1712,7 +1722,7 @@ func (fr *Frame) enterLoop(li *loopInfo, pre *State, phis []*ssa.Phi, phiEntry m
 		}
 		hs.ghost[k] = vc.Fresh("gh", g.Sort)
 	}
-	for g := range ef.ghostVars {
+	for _, g := range sortedKeys(ef.ghostVars) {
 		if gv := vc.ctx.ghostVars[g]; gv != nil {
 			vc.havocGhostVar(hs, gv)
 		}
@@ -1796,11 +1806,11 @@ func (fr *Frame) loopBackEdge(li *loopInfo, from *ssa.BasicBlock, st *State) err
 	if len(li.frameHeads) > 0 {
 		allowed, _ := vc.loopFrameAllowed()
 		var sl []string
-		for s := range li.frameHeads {
+		for _, s := range sortedKeys(li.frameHeads) {
 			sl = append(sl, string(s))
 		}
 		if li.frameAll {
-			for s := range vc.heapReg {
+			for _, s := range sortedKeys(vc.heapReg) {
 				if _, ok := li.frameHeads[s]; !ok {
 					sl = append(sl, string(s))
 				}
@@ -1915,6 +1925,23 @@ func (fr *Frame) loopEnv(li *loopInfo, st *State, phiVals map[*ssa.Phi]Term) *Sp
 			return v, true
 		}
 		return fr.lookupLocal(name, li.header, st, li)
+	}
+	env.rangeOf = func(ord int) (string, bool) {
+		for _, l := range fr.loops {
+			if (ord == 0 && l != li) || (ord != 0 && l.ordinal != ord) {
+				continue
+			}
+			for _, in := range l.header.Instrs {
+				if nx, ok := in.(*ssa.Next); ok {
+					if rng, ok := nx.Iter.(*ssa.Range); ok {
+						if rs := fr.vc.ctx.ranges[rng]; rs != nil {
+							return rs.visited, true
+						}
+					}
+				}
+			}
+		}
+		return "", false
 	}
 	return env
 }
